@@ -292,6 +292,51 @@ theorem drain_spec : ∀ (n : Nat) (s : St α), SpI N p s (drain n)
           exact SpI.of_bind ((lowerAssertion_block hN hp hs).1 _ _ _ he hc.1 s4) (fun _ _ s5 => ih s5)
         · exact SpI.of_bind (emitConstraint_sp hN hp hs hlhs hrhs hc.1 _ s4) (fun _ _ s5 => ih s5)
 
+/-! ### the whole of `linearizeWith` -/
+
+/-- the initial state of the linearizer. -/
+def initSt (m : Model α) (bounds : BoundsMap α) (domain : List (DomVar α)) : St α :=
+  { queue := m.constraints, domain := domain, bounds := bounds }
+
+/-- how the output is assembled from the final state `s` and the linearized objective `obj`. -/
+def assemble (m : Model α) (obj : Ctx α) (s : St α) : LinModel α :=
+  let rows := dedupNames s.rows
+  let vars := sortStr ((s.domain.filter (fun d => d.usage > 0)).map (·.name))
+  let dom := s.domain.filter fun d => vars.contains d.name
+  { optType := m.optType
+    objective := extractCoeffs obj.vars vars
+    offset := obj.rhs
+    vars := vars
+    domain := dom
+    rows := rows.map fun r => { name := r.name, coeffs := extractCoeffs r.lhs vars, cmp := r.cmp, rhs := r.rhs } }
+
+/-- a successful run of `linearizeWith` ends in a state related to the initial one by `Rel`, and the
+output is assembled from that state. -/
+theorem linearizeWith_run {m : Model α} {bounds : BoundsMap α} {domain : List (DomVar α)} {lm : LinModel α}
+    (hobj : allLits p m.objective = true) (hok : StOK N p (initSt m bounds domain))
+    (h : linearizeWith m bounds domain = .ok lm) :
+    ∃ (obj : Ctx α) (s : St α), Rel N p (initSt m bounds domain) s ∧ StOK N p s ∧ CtxOK p obj ∧
+      lm = assemble m obj s := by
+  unfold linearizeWith at h
+  dsimp only at h
+  split at h
+  · rename_i lm' sfin hrun
+    injection h with h
+    subst h
+    change (_ : M α (LinModel α)) (initSt m bounds domain) = _ at hrun
+    obtain ⟨objExp, s1, h1, hrun⟩ := bind_ok hrun
+    obtain ⟨obj, s2, h2, hrun⟩ := bind_ok hrun
+    obtain ⟨u, s3, h3, hrun⟩ := bind_ok hrun
+    obtain ⟨hr1, hobjExp⟩ := simplifyFlat_sp (N := N) hs hobj _ _ _ h1
+    obtain ⟨hr2, hobjc⟩ := (linExp_block hN hp).1 _ _ hobjExp _ _ _ h2
+    have hok2 : StOK N p s2 := hr2.ok (hr1.ok hok)
+    have hr3 := drain_spec hN hp hs _ s2 hok2 s3 h3
+    have hfin : (Except.ok (assemble m obj s3, s3) : Except LinErr (LinModel α × St α)) = .ok (lm', sfin) := hrun
+    injection hfin with hfin
+    injection hfin with hlm _
+    exact ⟨obj, s3, (rel_isPre N p).trans hr1 ((rel_isPre N p).trans hr2 hr3), hr3.ok hok2, hobjc, hlm.symm⟩
+  · cases h
+
 end lower
 
 end Lin
